@@ -9,12 +9,13 @@ git -C /repo worktree remove --force $WT 2>/dev/null
 git -C /repo worktree add -q --detach $WT HEAD || exit 3
 trap 'git -C /repo worktree remove --force '$WT' 2>/dev/null; rm -rf '$WT EXIT
 cd $WT
-cp "$DEMO" "$DEST"
+IFS=, read -ra DEMOS <<< "$DEMO"; IFS=, read -ra DESTS <<< "$DEST"
+for i in "${!DEMOS[@]}"; do cp "${DEMOS[$i]}" "${DESTS[$i]}"; done
 go test -vet=off -count=1 "$@" > /tmp/confirm-$NAME.without.log 2>&1; W=$?
 git apply "$PATCH" || { echo "APPLY FAILED"; exit 3; }
 go build ./... || { echo "BUILD FAILED"; exit 3; }
 go test -vet=off -count=1 "$@" > /tmp/confirm-$NAME.with.log 2>&1; X=$?
-rm -f "$DEST"
+for d in "${DESTS[@]}"; do rm -f "$d"; done
 go test -vet=off -count=1 ./... 2>&1 | grep -E "^(--- FAIL|FAIL|ok)" > /tmp/confirm-$NAME.suite.log
 FAILS=$(grep -E "^--- FAIL" /tmp/confirm-$NAME.suite.log | grep -v -E "TestHTTPRequestBasic|TestCron " | wc -l)
 echo "confirm $NAME: demo-without-change exit=$W (want 0), demo-with-change exit=$X (want !=0), suite unexpected failures=$FAILS (want 0)"
